@@ -85,6 +85,79 @@ def primitive_cells(rng: random.Random | None):  # noqa: ANN201
 
     yield ("Event.wait[set]", {}, b_event)
 
+    # primitives created while NO event loop is running are adapter objects that bind to the
+    # backend on first use; the checkpoint discipline is the same for them
+    def outside(factory):  # noqa: ANN001, ANN202
+        import threading
+
+        box: list = []
+        t = threading.Thread(target=lambda: box.append(factory()))
+        t.start()
+        t.join()
+        return box[0]
+
+    for where in ("outside", "inside"):
+
+        async def b_event_adapter(tg, where=where):  # noqa: ANN001, ANN202
+            def mk():  # noqa: ANN202
+                e = anyio.Event()
+                if where == "outside":
+                    e.set()
+
+                return e
+
+            ev = outside(mk)
+            if where == "inside":
+                ev.set()
+
+            return (lambda: ev.wait(), lambda: None)
+
+        yield ("Event.wait[set; created outside a loop]", {"set": where}, b_event_adapter)
+
+    async def b_lock_adapter(tg):  # noqa: ANN001, ANN202
+        lock = outside(anyio.Lock)
+
+        async def op():  # noqa: ANN202
+            await lock.acquire()
+            lock.release()
+
+        return (op, lambda: "lock left held" if lock.locked() else None)
+
+    yield ("Lock.acquire[uncontended; created outside a loop]", {}, b_lock_adapter)
+
+    async def b_sem_adapter(tg):  # noqa: ANN001, ANN202
+        sem = outside(lambda: anyio.Semaphore(1))
+
+        async def op():  # noqa: ANN202
+            await sem.acquire()
+            sem.release()
+
+        return (op, lambda: f"semaphore value {sem.value} != 1" if sem.value != 1 else None)
+
+    yield ("Semaphore.acquire[value>0; created outside a loop]", {}, b_sem_adapter)
+
+    async def b_lim_adapter(tg):  # noqa: ANN001, ANN202
+        lim = outside(lambda: anyio.CapacityLimiter(1))
+
+        async def op():  # noqa: ANN202
+            await lim.acquire()
+            lim.release()
+
+        return (op, lambda: f"{lim.borrowed_tokens} tokens borrowed" if lim.borrowed_tokens else None)
+
+    yield ("CapacityLimiter.acquire[free token; created outside a loop]", {}, b_lim_adapter)
+
+    async def b_cond_adapter(tg):  # noqa: ANN001, ANN202
+        cond = outside(anyio.Condition)
+
+        async def op():  # noqa: ANN202
+            async with cond:
+                pass
+
+        return (op, lambda: "condition lock left held" if cond.locked() else None)
+
+    yield ("Condition.async-with[uncontended; created outside a loop]", {}, b_cond_adapter)
+
     for via in ("acquire", "async-with"):
 
         async def b_lock(tg, via=via):  # noqa: ANN001, ANN202
